@@ -282,7 +282,50 @@ fn fail_all(case: &Value, out: &mut dyn Write, o: Value) {
     }
 }
 
+/// Prepare event: the factor file as given (lines, user RED1/RED2), the prepared list or the error,
+/// and the result of preparing the prepared list again.
+fn prepare_event(case: &Value, out: &mut dyn Write) {
+    let fac = &case["fac"];
+    // the file as given: abstract lines of the case, or (files / locations) the unprepared list
+    let given = match fac["mode"].as_str().unwrap_or("loc") {
+        "file" => std::fs::read_to_string(fac["path"].as_str().unwrap_or(""))
+            .ok()
+            .and_then(|t| t.parse::<Factors>().ok())
+            .map(|f| factors_json(&f).0)
+            .unwrap_or(json!([])),
+        "loc" => cte::CTE_LOCWF_RITE2014
+            .get(fac["loc"].as_str().unwrap_or(""))
+            .map(|f| factors_json(f).0)
+            .unwrap_or(json!([])),
+        _ => fac.get("lines").cloned().unwrap_or(json!([])),
+    };
+    let mut ev = json!({"ev": "Prepare", "case": case["case"], "tag": "prepare",
+                        "lines": given,
+                        "red1": fac.get("red1").cloned().unwrap_or(json!([])),
+                        "red2": fac.get("red2").cloned().unwrap_or(json!([]))});
+    ev["out"] = match build_factors(fac) {
+        Outcome::Ok(f) => {
+            let (list, exact, _) = factors_json(&f);
+            let again = match guarded(|| f.clone().normalize(&cte::CTE_USERWF)) {
+                Outcome::Ok(f2) => json!({"ok": true, "list": factors_json(&f2).0}),
+                Outcome::Err(k, m) => fail("prepare-again", k, &m),
+                Outcome::Panic(m) => fail("prepare-again", "Panic", &m),
+            };
+            json!({"ok": true, "list": list, "exact": exact, "again": again})
+        }
+        Outcome::Err(k, m) => fail("prepare", k, &m),
+        Outcome::Panic(m) => fail("prepare", "Panic", &m),
+    };
+    writeln!(out, "{}", ev).ok();
+}
+
 fn run_case(case: &Value, out: &mut dyn Write) {
+    if case.get("prepare_log").and_then(|x| x.as_bool()).unwrap_or(false) {
+        prepare_event(case, out);
+        if case.get("prepare_only").and_then(|x| x.as_bool()).unwrap_or(false) {
+            return;
+        }
+    }
     let id = case["case"].clone();
     let base_ev = |tag: &str| json!({"ev": "Eval", "case": id, "tag": tag});
     // ---- components
